@@ -1620,3 +1620,160 @@ Proof.
   repeat split; try congruence.
   rewrite Hsp1, len_length, map_length, <- (rev_length cs), Hr. cbn [length]. lia.
 Qed.
+
+(* make-string *)
+Definition as_usize (v : vcell) : option N :=
+  match v with
+  | VNum n => if num_is_integer n && num_ge_zero n then num_to_usize n else None
+  | _ => None
+  end.
+
+Lemma pop_usize_top s v vs :
+  top_is s (v :: vs) -> imm v ->
+  pop_usize s = opt_res (as_usize v) (pop1 s) /\ top_is (pop1 s) vs.
+Proof.
+  intros H Hi. destruct (pop_number_top _ _ _ H Hi) as [E T]. split; [|exact T].
+  unfold pop_usize. destruct v; cbn [as_number as_usize opt_res] in *;
+    try (now rewrite (bindM_err _ _ _ _ _ _ E)).
+  rewrite (bindM_ok _ _ _ _ _ E).
+  destruct (num_is_integer n && num_ge_zero n); [|reflexivity].
+  now destruct (num_to_usize n).
+Qed.
+
+Lemma as_usize_fixnum z :
+  as_usize (VNum (Fixnum z)) = if (0 <=? z)%Z then Some (Z.to_N z) else None.
+Proof. cbn. now destruct (0 <=? z)%Z. Qed.
+
+Definition fill_arg (oc : option cp) : list vcell := match oc with Some c => [VChar c] | None => [] end.
+Definition fill_char (oc : option cp) : cp := match oc with Some c => c | None => 0 end.
+
+Theorem make_string_refines s kv oc :
+  stack_ok s -> imm kv ->
+  let r := run_builtin make_string (kv :: fill_arg oc) s in
+  match as_usize kv with
+  | Some k => returns r s (VStr (next_id (st s)))
+                (snd (new_str (st s) (repeat (fill_char oc) (N.to_nat k))))
+  | None => fails r s
+  end.
+Proof.
+  intros Hok Hi r. subst r.
+  destruct (as_usize kv) as [k|] eqn:Hk; destruct oc as [c|]; cbn [fill_arg fill_char];
+    enter Hok s1; unfold make_string; pop_argc_ 1 (Some 2); cbn [N.eqb Pos.eqb].
+  - pop_with pop_char_top E. cbn [as_char opt_res] in E. use_ok E.
+    pop_with pop_usize_top E. rewrite Hk in E. cbn [opt_res] in E. use_ok E.
+    rewrite str_new_run. norm_state. rewrite Hst1. finish_ret.
+  - unfold ret at 1. rewrite (bindM_ok _ _ _ 0 _ eq_refl).
+    pop_with pop_usize_top E. rewrite Hk in E. cbn [opt_res] in E. use_ok E.
+    rewrite str_new_run. norm_state. rewrite Hst1. finish_ret.
+  - pop_with pop_char_top E. cbn [as_char opt_res] in E. use_ok E.
+    pop_with pop_usize_top E. rewrite Hk in E. cbn [opt_res] in E. use_err E. finish_fail.
+  - unfold ret at 1. rewrite (bindM_ok _ _ _ 0 _ eq_refl).
+    pop_with pop_usize_top E. rewrite Hk in E. cbn [opt_res] in E. use_err E. finish_fail.
+Qed.
+
+(* vector->string *)
+Fixpoint chars_of (l : list vcell) : option text :=
+  match l with
+  | [] => Some []
+  | VChar c :: r => match chars_of r with Some cs => Some (c :: cs) | None => None end
+  | _ => None
+  end.
+
+Lemma hderef_imm v s : imm v -> hderef v s = ROk v s.
+Proof. intro H. unfold hderef, lift. destruct v; cbn in *; try reflexivity. contradiction. Qed.
+
+Lemma vector_string_loop_spec l : forall acc s0,
+  Forall imm l ->
+  vector_string_loop l acc s0 =
+  match chars_of l with Some cs => ROk (acc ++ cs) s0 | None => RErr E_OTHER [] s0 end.
+Proof.
+  induction l as [|x l IH]; intros acc s0 HF; cbn [vector_string_loop chars_of].
+  - now rewrite app_nil_r.
+  - inversion HF; subst. rewrite (bindM_ok _ _ _ _ _ (hderef_imm x s0 H1)).
+    destruct x; try reflexivity.
+    rewrite IH by assumption. destruct (chars_of l); [|reflexivity].
+    now rewrite <- app_assoc.
+Qed.
+
+Lemma vec_get_ok s vid l : tget (vecs (st s)) vid = Some l -> vec_get vid s = ROk l s.
+Proof. intro H. unfold vec_get. now rewrite H. Qed.
+
+Definition as_vector (v : vcell) : option N := match v with VVec vid => Some vid | _ => None end.
+Lemma pop_vector_top s v vs :
+  top_is s (v :: vs) -> imm v ->
+  pop_vector s = opt_res (as_vector v) (pop1 s) /\ top_is (pop1 s) vs.
+Proof.
+  intros H Hi. destruct (pop_value_top _ _ _ H Hi) as [Hp Ht]. split; [|exact Ht].
+  unfold pop_vector. rewrite (bindM_ok _ _ _ _ _ Hp). now destruct v.
+Qed.
+
+Theorem vector_string_refines s vid l :
+  stack_ok s -> tget (vecs (st s)) vid = Some l -> Forall imm l ->
+  let r := run_builtin vector_string [VVec vid] s in
+  match chars_of l with
+  | Some cs => returns r s (VStr (next_id (st s))) (snd (new_str (st s) cs))
+  | None => fails r s
+  end.
+Proof.
+  intros Hok Hv HF r. subst r.
+  destruct (chars_of l) as [cs|] eqn:Hc;
+    enter Hok s1; unfold vector_string; pop_argc_ 1 (Some 1);
+    pop_with pop_vector_top E; cbn [as_vector opt_res] in E; use_ok E;
+    rewrite (bindM_ok _ _ _ _ _ (vec_get_ok (pop1 (pop1 s1)) vid l
+               ltac:(rewrite 2!st_pop1, Hst1; exact Hv)));
+    pose proof (vector_string_loop_spec l [] (pop1 (pop1 s1)) HF) as Hloop; rewrite Hc in Hloop.
+  - rewrite (bindM_ok _ _ _ _ _ Hloop). cbn [app]. rewrite str_new_run. norm_state. rewrite Hst1. finish_ret.
+  - rewrite (bindM_err _ _ _ _ _ _ Hloop). finish_fail.
+Qed.
+
+(* list->string: a proper list of characters in the heap *)
+Inductive heap_chars (h : heap) : vcell -> text -> Prop :=
+| hc_nil : heap_chars h VNil []
+| hc_cons a d c rest cs :
+    heap_get h a = Ok (VChar c) -> heap_get h d = Ok rest -> heap_chars h rest cs ->
+    heap_chars h (VPair a d) (c :: cs).
+
+Lemma hget_ok s p v : heap_get (hp s) p = Ok v -> hget p s = ROk v s.
+Proof. intro H. unfold hget, lift. now rewrite H. Qed.
+
+Lemma list_string_loop_spec h v cs :
+  heap_chars h v cs -> forall fuel acc s0, hp s0 = h -> (length cs < fuel)%nat ->
+  list_string_loop fuel v acc s0 = ROk (acc ++ cs) s0.
+Proof.
+  induction 1 as [|a d c rest cs Ha Hd Hrest IH]; intros fuel acc s0 Hh Hf;
+    (destruct fuel as [|f]; [cbn in Hf; lia|]); cbn [list_string_loop].
+  - unfold ret. now rewrite app_nil_r.
+  - subst h. rewrite (bindM_ok _ _ _ _ _ (hget_ok _ _ _ Ha)).
+    rewrite (bindM_ok _ _ _ _ _ (hget_ok _ _ _ Hd)).
+    rewrite IH by (auto; cbn [length] in Hf; lia). now rewrite <- app_assoc.
+Qed.
+
+Lemma pop_value_deref s v v' vs :
+  top_is s (v :: vs) -> heap_deref (hp s) v = Ok v' ->
+  pop_value s = ROk v' (pop1 s) /\ top_is (pop1 s) vs.
+Proof.
+  intros H Hd. destruct (pop_raw_top _ _ _ H) as [Hp Ht]. split; [|exact Ht].
+  unfold pop_value, pop_deref. rewrite (bindM_ok _ _ _ _ _ Hp).
+  unfold hderef, lift. change (hp (with_sp s (sp s - 1))) with (hp s). rewrite Hd. reflexivity.
+Qed.
+
+(* the hypothesis on the length is the acyclicity of the list (each pair occupies its own
+   heap cell); without it the loop runs out of fuel, i.e. the Rust loop does not terminate *)
+Theorem list_string_refines s arg v cs :
+  stack_ok s -> heap_deref (hp s) arg = Ok v -> heap_chars (hp s) v cs ->
+  (length cs <= N.to_nat (hlen (hp s)))%nat ->
+  returns (run_builtin list_string [arg] s) s (VStr (next_id (st s))) (snd (new_str (st s) cs)).
+Proof.
+  intros Hok Hd Hc Hlen. enter Hok s1. unfold list_string. pop_argc_ 1 (Some 1).
+  destruct (pop_value_deref _ _ v _ T ltac:(rewrite hp_pop1, Hhp1; exact Hd)) as [E T2].
+  rewrite (bindM_ok _ _ _ _ _ E).
+  assert (Hrun : forall s0, hp s0 = hp s -> st s0 = st s -> sp s0 = sp s ->
+            returns ((dom h <- get_vm;
+                      dom s2 <- list_string_loop (S (N.to_nat (hlen (hp h)))) v []; str_new s2) s0)
+                    s (VStr (next_id (st s))) (snd (new_str (st s) cs))).
+  { intros s0 H1 H2 H3. rewrite (bindM_ok get_vm _ s0 s0 s0 eq_refl).
+    assert (Hloop : list_string_loop (S (N.to_nat (hlen (hp s0)))) v [] s0 = ROk ([] ++ cs) s0)
+      by (apply (list_string_loop_spec (hp s0) v cs); rewrite ?H1; auto; lia).
+    rewrite (bindM_ok _ _ _ _ _ Hloop). cbn [app]. rewrite str_new_run, H2. finish_ret. }
+  inversion Hc; subst; apply Hrun; norm_state; try congruence; lia.
+Qed.
